@@ -37,9 +37,9 @@ Harness/Glue.vos Harness/Glue.vok Harness/Glue.required_vos: Harness/Glue.v Lib/
 Harness/Extract.vo Harness/Extract.glob Harness/Extract.v.beautified Harness/Extract.required_vo: Harness/Extract.v Harness/Glue.vo
 Harness/Extract.vio: Harness/Extract.v Harness/Glue.vio
 Harness/Extract.vos Harness/Extract.vok Harness/Extract.required_vos: Harness/Extract.v Harness/Glue.vos
-Harness/OracleProof.vo Harness/OracleProof.glob Harness/OracleProof.v.beautified Harness/OracleProof.required_vo: Harness/OracleProof.v Model/Index.vo Model/Dag.vo Proofs/IndexProof.vo Proofs/Walk.vo Proofs/DagApi.vo Harness/Glue.vo
-Harness/OracleProof.vio: Harness/OracleProof.v Model/Index.vio Model/Dag.vio Proofs/IndexProof.vio Proofs/Walk.vio Proofs/DagApi.vio Harness/Glue.vio
-Harness/OracleProof.vos Harness/OracleProof.vok Harness/OracleProof.required_vos: Harness/OracleProof.v Model/Index.vos Model/Dag.vos Proofs/IndexProof.vos Proofs/Walk.vos Proofs/DagApi.vos Harness/Glue.vos
+Harness/OracleProof.vo Harness/OracleProof.glob Harness/OracleProof.v.beautified Harness/OracleProof.required_vo: Harness/OracleProof.v Lib/Bytes.vo Model/Index.vo Model/Dag.vo Proofs/IndexProof.vo Proofs/Walk.vo Proofs/DagApi.vo Harness/Glue.vo
+Harness/OracleProof.vio: Harness/OracleProof.v Lib/Bytes.vio Model/Index.vio Model/Dag.vio Proofs/IndexProof.vio Proofs/Walk.vio Proofs/DagApi.vio Harness/Glue.vio
+Harness/OracleProof.vos Harness/OracleProof.vok Harness/OracleProof.required_vos: Harness/OracleProof.v Lib/Bytes.vos Model/Index.vos Model/Dag.vos Proofs/IndexProof.vos Proofs/Walk.vos Proofs/DagApi.vos Harness/Glue.vos
 Proofs/RenderProof.vo Proofs/RenderProof.glob Proofs/RenderProof.v.beautified Proofs/RenderProof.required_vo: Proofs/RenderProof.v Lib/Bytes.vo Lib/Val.vo Lib/ListX.vo Model/Index.vo Proofs/IndexProof.vo
 Proofs/RenderProof.vio: Proofs/RenderProof.v Lib/Bytes.vio Lib/Val.vio Lib/ListX.vio Model/Index.vio Proofs/IndexProof.vio
 Proofs/RenderProof.vos Proofs/RenderProof.vok Proofs/RenderProof.required_vos: Proofs/RenderProof.v Lib/Bytes.vos Lib/Val.vos Lib/ListX.vos Model/Index.vos Proofs/IndexProof.vos
